@@ -1,4 +1,5 @@
-"""Shared by c10.py and c14.py (relational properties, spec/Relations.tla).
+"""Shared by c10.py and c14.py (relational properties, spec/Relations.tla); the section on
+argument dtype / layout families and structured supports is shared by all audited drivers.
 
 Python here only calls bctpy on BOTH members of a pair and encodes the two outcomes;
 which pairs exist, what their domain is and whether the outcomes agree is decided by
@@ -286,9 +287,9 @@ def model_partitions(ctx, n):
 
 def describe(job, rec, clause):
     if rec.get("prop") == "C10":
-        return "pair %s / %s on %s: raised=(%r,%r) out1=%s out2=%s A=%s" % (
+        return "pair %s / %s on %s: raised=(%r,%r) out1=%s out2=%s dtype=%s layout=%s A=%s" % (
             rec["fw"], rec["fb"], rec["dom"], rec["raised1"], rec["raised2"],
-            rec["out1"][:12], rec["out2"][:12], job.get("A"))
+            rec["out1"][:12], rec["out2"][:12], job.get("dtype", "float64"), job.get("layout", "C"), job.get("A"))
     if rec.get("rel") == "relabel":
         return "%s: cs1=%s cs2=%s raised=(%r,%r) out1=%s out2=%s" % (
             rec["fn"], rec["cs1"], rec["cs2"], rec["raised1"], rec["raised2"],
